@@ -133,8 +133,55 @@ fn check(c: &Case, obs: &mut Obs) -> Verdict {
     Verdict::Pass
 }
 
+fn large(t: Tier) -> BoxedStrategy<Case> {
+    let p = MMParams { max_tokens: t.pick(1200, 5000), ..MMParams::regular(t) };
+    (mm_strategy(p), prop_oneof![2 => Just(Producer::Direct), 1 => Just(Producer::RoundTrip), 1 => Just(Producer::Rewrite { names: true, contents: true, prefixes: vec![] })])
+        .prop_map(|(m, producer)| Case { base: MAny::Regular(m), producer })
+        .boxed()
+}
+
+fn deep(t: Tier) -> BoxedStrategy<Case> {
+    let p = MMParams { max_tokens: 8, big_lines: false, ..MMParams::regular(t) };
+    (deep_index_strategy(p, 30), prop_oneof![Just(Producer::Direct), Just(Producer::RoundTrip), Just(Producer::Flatten)])
+        .prop_map(|(i, producer)| Case { base: MAny::Index(i), producer })
+        .boxed()
+}
+
+/// many tokens on very few positions, string tables with repeated entries
+fn crowded(t: Tier) -> BoxedStrategy<Case> {
+    let p = MMParams { max_tokens: t.pick(40, 120), ..MMParams::regular(t) };
+    (mm_strategy(p), 1u32..3, 1u32..4, prop_oneof![2 => Just(Producer::Direct), 1 => Just(Producer::RoundTrip)])
+        .prop_map(|(mut m, ml, mc, producer)| {
+            for tok in &mut m.tokens {
+                tok.dl %= ml;
+                tok.dc %= mc;
+                if let Some(s) = &mut tok.src {
+                    s.line %= 2;
+                    s.col %= 2;
+                }
+            }
+            for i in 1..m.sources.len() {
+                if i % 2 == 1 {
+                    m.sources[i] = m.sources[0].clone();
+                }
+            }
+            for i in 1..m.names.len() {
+                if i % 2 == 0 {
+                    m.names[i] = m.names[0].clone();
+                }
+            }
+            Case { base: MAny::Regular(m), producer }
+        })
+        .boxed()
+}
+
 fn subs() -> Vec<Sub> {
-    vec![gen_sub("serialised", case_strategy, |t| t.pick(30_000, 600_000), check)]
+    vec![
+        gen_sub("deep_nesting", deep, |t| t.pick(600, 12_000), check),
+        gen_sub("crowded_positions", crowded, |t| t.pick(4_000, 80_000), check),
+        gen_sub("large_maps", large, |t| t.pick(150, 3_000), check),
+        gen_sub("serialised", case_strategy, |t| t.pick(30_000, 600_000), check),
+    ]
 }
 
 pub const DEF: PropertyDef = PropertyDef {
